@@ -140,7 +140,7 @@ def c07(tier):
                          "length over the 11-class alphabet x context x header x side, 3 concretisations each, plus long structured "
                          "values (base64 text of lengths 0..1024 with every padding and one invalid character first / middle / "
                          "last; runs of tokens, commas, quotes, backslashes, parameters, extension elements, origin URLs up to 4 KiB, "
-                         "thorough 1 MiB) for every header in every context, allocation bounded by 64 x bytes presented + 256 KiB "
+                         "thorough 1 MiB) for every header in every context, allocation bounded by 1024 x bytes presented + 256 KiB "
                          "per presentation + 4 MiB; oracle: any normal result or error return, PANIC/HANG/ALLOC events are "
                          "unexplainable",
                     parts=cov)
